@@ -219,7 +219,10 @@ func build386() (string, error) {
 	out := filepath.Join(dir, "c08.386.test")
 	cmd := exec.Command("go", "test", "-c", "-vet=off", "-tags", "verif", "-o", out, "./props/c08")
 	cmd.Dir = moduleRoot()
-	cmd.Env = append(os.Environ(), "GOARCH=386", "CGO_ENABLED=0", "GOFLAGS=-mod=mod", "GOPROXY=off", "GOSUMDB=off", "GOTOOLCHAIN=local")
+	cmd.Env = append(os.Environ(), "GOARCH=386", "CGO_ENABLED=0", "GOPROXY=off", "GOSUMDB=off", "GOTOOLCHAIN=local")
+	if os.Getenv("GOFLAGS") == "" { // the driver's GOFLAGS (possibly with a dev overlay) are kept
+		cmd.Env = append(cmd.Env, "GOFLAGS=-mod=mod")
+	}
 	if b, err := cmd.CombinedOutput(); err != nil {
 		return "", fmt.Errorf("cannot build the GOARCH=386 test binary: %v\n%s", err, b)
 	}
